@@ -580,11 +580,100 @@ fn all_units() -> Vec<Unit> {
         BitPerSecond KilobitPerSecond MegabitPerSecond GigabitPerSecond TerabitPerSecond)
 }
 
+/// Everything that depends on the two tag TYPES, behind one function pointer, so that the
+/// comparison logic is compiled once and not once per pair.
+#[derive(Clone, Copy, PartialEq, Eq, Debug)]
+enum Op {
+    ConvertFn,
+    Plain,
+    PlainExtra,
+    UnitOverOption,
+    OptionOfUnit,
+    UnitOverDistribution,
+    DistributionOfUnit,
+    PrimitiveChain,
+    ObservationChain,
+    UnitOverMean,
+    MeanOfUnit,
+    UnitOverMeanFromIter,
+    UnitOverNone,
+    NoneOfUnit,
+    UnitOverEmptyDistribution,
+    UnitOverEmptyMean,
+    StringPlain,
+    StringOption,
+    StringDistribution,
+    Liar,
+    LiarDistribution,
+    LiarMean,
+    InnerError,
+}
+
+struct PairFns {
+    ratio: f64,
+    from_unit: Unit,
+    to_unit: Unit,
+    /// (operation, observations written by the source, unit written by a lying source)
+    emit: fn(Op, &[Observation], Unit) -> Vec<Call>,
+}
+
+fn mean_calls<M: Value>(r: Result<M, ValidationError>) -> Vec<Call> {
+    match r {
+        Ok(m) => record(&m),
+        Err(e) => vec![Call::Str(format!("<Mean::try_new failed: {e}>"))],
+    }
+}
+
+fn emit<A, B>(op: Op, xs: &[Observation], w: Unit) -> Vec<Call>
+where
+    A: Convert<B> + 'static,
+    B: UnitTag + 'static,
+{
+    let x = xs.first().copied().unwrap_or(Observation::Unsigned(0));
+    match op {
+        Op::ConvertFn => vec![Call::Metric { obs: xs.iter().map(|x| <A as Convert<B>>::convert(*x)).collect(), unit: B::UNIT, dims: vec![], flagged: false }],
+        Op::Plain => record(&Tagged::<A>::new(x).with_unit::<B>()),
+        Op::PlainExtra => record(&Tagged::<A>::with_extra(x).with_unit::<B>()),
+        Op::UnitOverOption => record(&Some(Tagged::<A>::new(x)).with_unit::<B>()),
+        Op::OptionOfUnit => record(&Some(Tagged::<A>::new(x).with_unit::<B>())),
+        Op::UnitOverDistribution => record(&Distribution::<Tagged<A>>::from_iter(xs.iter().map(|x| Tagged::new(*x))).with_unit::<B>()),
+        Op::DistributionOfUnit => record(&Distribution::<WithUnit<Tagged<A>, B>, 2>::from_iter(xs.iter().map(|x| Tagged::new(*x).with_unit::<B>()))),
+        // real primitives as the source: unitless -> A (ratio one) -> B
+        Op::PrimitiveChain => match x {
+            Observation::Unsigned(n) => record(&n.with_unit::<A>().with_unit::<B>()),
+            Observation::Floating(f) => record(&f.with_unit::<A>().with_unit::<B>()),
+            _ => record(&x.with_unit::<A>().with_unit::<B>()),
+        },
+        Op::ObservationChain => record(&x.with_unit::<A>().with_unit::<B>()),
+        Op::UnitOverMean => mean_calls(Mean::<A>::try_new([&Tagged::<A>::new(x)]).map(|m| m.with_unit::<B>())),
+        Op::MeanOfUnit => mean_calls(Mean::<B>::try_new([&Tagged::<A>::new(x).with_unit::<B>()])),
+        Op::UnitOverMeanFromIter => {
+            let (total, occurrences) = num_parts(&x);
+            record(&Mean::<A>::from_iter(std::iter::repeat_n(total / occurrences as f64, occurrences as usize)).with_unit::<B>())
+        }
+        Op::UnitOverNone => record(&Option::<Tagged<A>>::None.with_unit::<B>()),
+        Op::NoneOfUnit => record(&Option::<WithUnit<Tagged<A>, B>>::None),
+        Op::UnitOverEmptyDistribution => record(&Distribution::<Tagged<A>>::from_iter(std::iter::empty()).with_unit::<B>()),
+        Op::UnitOverEmptyMean => record(&Mean::<A>::default().with_unit::<B>()),
+        Op::StringPlain => record(&StrMetric::<A>(PhantomData).with_unit::<B>()),
+        Op::StringOption => record(&Some(StrMetric::<A>(PhantomData)).with_unit::<B>()),
+        Op::StringDistribution => record(&Distribution::<StrMetric<A>>::from_iter([StrMetric(PhantomData)]).with_unit::<B>()),
+        Op::Liar => record(&Liar::<A>::new(w).with_unit::<B>()),
+        Op::LiarDistribution => record(&Distribution::<Liar<A>>::from_iter([Liar::new(w)]).with_unit::<B>()),
+        Op::LiarMean => mean_calls(Mean::<A>::try_new([&Liar::<A>::new(w)])),
+        Op::InnerError => record(&ErrVal::<A>(PhantomData).with_unit::<B>()),
+    }
+}
+
 fn pair<A, B>(st: &mut St, an: &'static str, bn: &'static str)
 where
     A: Convert<B> + 'static,
     B: UnitTag + 'static,
 {
+    pair_run(st, an, bn, PairFns { ratio: <A as Convert<B>>::RATIO, from_unit: A::UNIT, to_unit: B::UNIT, emit: emit::<A, B> });
+}
+
+fn pair_run(st: &mut St, an: &'static str, bn: &'static str, f: PairFns) {
     let (from, to) = (info(an), info(bn));
     if !st.pairs.insert((an, bn)) {
         eprintln!("C19: pair {an}->{bn} enumerated twice");
@@ -595,9 +684,11 @@ where
     if nontrivial {
         st.nontrivial.insert((an, bn));
     }
+    let emit = f.emit;
+    let none = Unit::None;
 
     // the tags carry the CloudWatch names
-    for (tag, unit) in [(&from, A::UNIT), (&to, B::UNIT)] {
+    for (tag, unit) in [(&from, f.from_unit), (&to, f.to_unit)] {
         st.tick("tag-name", 1);
         if unit.name() != tag.name {
             st.v.add(format!("tag-name:{}", tag.tag), format!("tag {} has unit name `{}`, CloudWatch calls it `{}`", tag.tag, unit.name(), tag.name), json!({"tag": tag.tag, "name": unit.name()}));
@@ -605,7 +696,7 @@ where
     }
 
     // the constant
-    let r = <A as Convert<B>>::RATIO;
+    let r = f.ratio;
     let r_ref = ratio.0 as f64 / ratio.1 as f64;
     st.tick("ratio-constant", 1);
     let ratio_ok = if nontrivial { close(r, r_ref, 2.0) } else { r == 1.0 };
@@ -618,135 +709,104 @@ where
         );
     }
 
+    let sampled = [
+        ("Terabit", "Kilobyte", Observation::Unsigned(3)),
+        ("Microsecond", "Second", Observation::Floating(1.5)),
+        ("KilobytePerSecond", "MegabitPerSecond", Observation::Repeated { total: 9.0, occurrences: 3 }),
+        ("None", "Percent", Observation::Unsigned(u64::MAX)),
+    ];
     let alphabet = st.alphabet.clone();
     for x in &alphabet {
         let x = *x;
         let one = [x];
-        // Convert::convert itself
-        let got = <A as Convert<B>>::convert(x);
-        let calls = [Call::Metric { obs: vec![got], unit: B::UNIT, dims: vec![], flagged: false }];
-        check_metric(st, "convert-fn", &from, &to, ratio, true, &one, &calls, false, 4.0);
-
-        let calls = record(&Tagged::<A>::new(x).with_unit::<B>());
-        let sampled = [
-            ("Terabit", "Kilobyte", Observation::Unsigned(3)),
-            ("Microsecond", "Second", Observation::Floating(1.5)),
-            ("KilobytePerSecond", "MegabitPerSecond", Observation::Repeated { total: 9.0, occurrences: 3 }),
-            ("None", "Percent", Observation::Unsigned(u64::MAX)),
-        ];
-        if sampled.iter().any(|(a, b, v)| (*a, *b) == (an, bn) && *v == x) {
-            st.samples.push(json!({"kind": "plain", "from": an, "to": bn, "reference_ratio": format!("{}/{}", ratio.0, ratio.1),
-                "written": obs_json(&x), "received": calls_json(&calls)}));
+        for (op, kind, extra) in [
+            (Op::ConvertFn, "convert-fn", false),
+            (Op::Plain, "plain", false),
+            (Op::PlainExtra, "plain+dimension+flags", true),
+            (Op::UnitOverOption, "unit-over-option", false),
+            (Op::OptionOfUnit, "option-of-unit", false),
+            (Op::UnitOverDistribution, "unit-over-distribution", false),
+            (Op::DistributionOfUnit, "distribution-of-unit", false),
+            (Op::PrimitiveChain, "primitive-chain", false),
+            (Op::ObservationChain, "observation-chain", false),
+        ] {
+            let calls = emit(op, &one, none);
+            if op == Op::Plain && sampled.iter().any(|(a, b, v)| (*a, *b) == (an, bn) && *v == x) {
+                st.samples.push(json!({"kind": "plain", "from": an, "to": bn, "reference_ratio": format!("{}/{}", ratio.0, ratio.1),
+                    "written": obs_json(&x), "received": calls_json(&calls)}));
+            }
+            check_metric(st, kind, &from, &to, ratio, true, &one, &calls, extra, 4.0);
         }
-        check_metric(st, "plain", &from, &to, ratio, true, &one, &calls, false, 4.0);
-
-        let calls = record(&Tagged::<A>::with_extra(x).with_unit::<B>());
-        check_metric(st, "plain+dimension+flags", &from, &to, ratio, true, &one, &calls, true, 4.0);
-
-        let calls = record(&Some(Tagged::<A>::new(x)).with_unit::<B>());
-        check_metric(st, "unit-over-option", &from, &to, ratio, true, &one, &calls, false, 4.0);
-        let calls = record(&Some(Tagged::<A>::new(x).with_unit::<B>()));
-        check_metric(st, "option-of-unit", &from, &to, ratio, true, &one, &calls, false, 4.0);
-
-        let calls = record(&Distribution::<Tagged<A>>::from_iter([Tagged::new(x)]).with_unit::<B>());
-        check_metric(st, "unit-over-distribution", &from, &to, ratio, true, &one, &calls, false, 4.0);
-        let calls = record(&Distribution::<WithUnit<Tagged<A>, B>, 2>::from_iter([Tagged::new(x).with_unit::<B>()]));
-        check_metric(st, "distribution-of-unit", &from, &to, ratio, true, &one, &calls, false, 4.0);
-
-        // real primitives as the source: unitless -> A (ratio one) -> B
-        let calls = match x {
-            Observation::Unsigned(n) => record(&n.with_unit::<A>().with_unit::<B>()),
-            Observation::Floating(f) => record(&f.with_unit::<A>().with_unit::<B>()),
-            _ => record(&x.with_unit::<A>().with_unit::<B>()),
-        };
-        check_metric(st, "primitive-chain", &from, &to, ratio, true, &one, &calls, false, 4.0);
-        let calls = record(&x.with_unit::<A>().with_unit::<B>());
-        check_metric(st, "observation-chain", &from, &to, ratio, true, &one, &calls, false, 4.0);
 
         // Mean: a declared unit on a total/occurrences pair
         let (val, occ) = num_parts(&x);
         let as_repeated = [Observation::Repeated { total: val, occurrences: occ }];
-        match Mean::<A>::try_new([&Tagged::<A>::new(x)]) {
-            Ok(mean) => {
-                let calls = record(&mean.with_unit::<B>());
-                if occ == 0 {
-                    expect_nothing(st, "unit-over-mean", &from, &to, &calls);
-                } else {
-                    check_metric(st, "unit-over-mean", &from, &to, ratio, true, &as_repeated, &calls, false, 4.0);
-                }
-            }
-            Err(e) => st.v.add("mean-rejected-honest-value", format!("Mean::<{an}>::try_new rejected a value that writes {an}: {e}"), json!({"unit": an, "value": obs_json(&x)})),
+        let calls = emit(Op::UnitOverMean, &one, none);
+        if occ == 0 {
+            expect_nothing(st, "unit-over-mean", &from, &to, &calls);
+        } else {
+            check_metric(st, "unit-over-mean", &from, &to, ratio, true, &as_repeated, &calls, false, 4.0);
         }
-        match Mean::<B>::try_new([&Tagged::<A>::new(x).with_unit::<B>()]) {
-            Ok(mean) => {
-                let calls = record(&mean);
-                if occ == 0 {
-                    expect_nothing(st, "mean-of-unit", &from, &to, &calls);
-                } else {
-                    // the Mean adds the converted number to 0.0: Repeated, even when the ratio is 1
-                    check_metric(st, "mean-of-unit", &from, &to, ratio, false, &as_repeated, &calls, false, 4.0);
-                }
-            }
-            Err(e) => st.v.add(format!("mean-rejected-converted-value:{an}->{bn}"), format!("Mean::<{bn}>::try_new rejected WithUnit<_, {bn}>: {e}"), json!({"from": an, "to": bn, "value": obs_json(&x)})),
+        let calls = emit(Op::MeanOfUnit, &one, none);
+        if occ == 0 {
+            expect_nothing(st, "mean-of-unit", &from, &to, &calls);
+        } else {
+            // the Mean adds the converted number to 0.0: Repeated, even when the ratio is 1
+            check_metric(st, "mean-of-unit", &from, &to, ratio, false, &as_repeated, &calls, false, 4.0);
         }
         if let Observation::Repeated { total, occurrences } = x {
             if (1..=8).contains(&occurrences) {
                 let part = total / occurrences as f64;
-                let mean = Mean::<A>::from_iter(std::iter::repeat_n(part, occurrences as usize));
                 let mut sum = 0.0f64;
                 for _ in 0..occurrences {
                     sum += part;
                 }
-                let calls = record(&mean.with_unit::<B>());
+                let calls = emit(Op::UnitOverMeanFromIter, &one, none);
                 check_metric(st, "unit-over-mean-from-iter", &from, &to, ratio, true, &[Observation::Repeated { total: sum, occurrences }], &calls, false, 4.0);
             }
         }
     }
 
     // the whole alphabet as one distribution
-    let calls = record(&Distribution::<Tagged<A>>::from_iter(alphabet.iter().map(|x| Tagged::new(*x))).with_unit::<B>());
+    let calls = emit(Op::UnitOverDistribution, &alphabet, none);
     check_metric(st, "unit-over-distribution-all", &from, &to, ratio, true, &alphabet, &calls, false, 4.0);
-    let calls = record(&Distribution::<WithUnit<Tagged<A>, B>>::from_iter(alphabet.iter().map(|x| Tagged::new(*x).with_unit::<B>())));
+    let calls = emit(Op::DistributionOfUnit, &alphabet, none);
     check_metric(st, "distribution-of-unit-all", &from, &to, ratio, true, &alphabet, &calls, false, 4.0);
 
     // absent values stay absent
-    let calls = record(&Option::<Tagged<A>>::None.with_unit::<B>());
-    expect_nothing(st, "unit-over-none", &from, &to, &calls);
-    let calls = record(&Option::<WithUnit<Tagged<A>, B>>::None);
-    expect_nothing(st, "none-of-unit", &from, &to, &calls);
-    let calls = record(&Distribution::<Tagged<A>>::from_iter(std::iter::empty()).with_unit::<B>());
-    expect_nothing(st, "unit-over-empty-distribution", &from, &to, &calls);
-    let calls = record(&Mean::<A>::default().with_unit::<B>());
-    expect_nothing(st, "unit-over-empty-mean", &from, &to, &calls);
+    for (op, kind) in [(Op::UnitOverNone, "unit-over-none"), (Op::NoneOfUnit, "none-of-unit"), (Op::UnitOverEmptyDistribution, "unit-over-empty-distribution"), (Op::UnitOverEmptyMean, "unit-over-empty-mean")] {
+        let calls = emit(op, &[], none);
+        expect_nothing(st, kind, &from, &to, &calls);
+    }
 
     // validation: a unit on a string
-    let calls = record(&StrMetric::<A>(PhantomData).with_unit::<B>());
+    let calls = emit(Op::StringPlain, &[], none);
     expect_error(st, "string-with-unit-not-rejected".into(), format!("WithUnit<string-writing value promising {an}, {bn}>"), &calls, None);
-    let calls = record(&Some(StrMetric::<A>(PhantomData)).with_unit::<B>());
+    let calls = emit(Op::StringOption, &[], none);
     expect_error(st, "string-with-unit-not-rejected".into(), format!("WithUnit<Option<string-writing value promising {an}>, {bn}>"), &calls, None);
-    let calls = record(&Distribution::<StrMetric<A>>::from_iter([StrMetric(PhantomData)]).with_unit::<B>());
+    let calls = emit(Op::StringDistribution, &[], none);
     expect_error(st, "string-in-distribution-with-unit-not-rejected".into(), format!("WithUnit<Distribution<string-writing value promising {an}>, {bn}>"), &calls, None);
 
     // validation: promised A, wrote something else
     for w in all_units() {
-        let calls = record(&Liar::<A>::new(w).with_unit::<B>());
-        if w == A::UNIT {
+        let calls = emit(Op::Liar, &[], w);
+        if w == f.from_unit {
             check_metric(st, "honest-custom-value", &from, &to, ratio, true, &[Observation::Unsigned(3)], &calls, false, 4.0);
             continue;
         }
         expect_error(st, format!("unit-mismatch-not-rejected:{an}->{bn}"), format!("value promising {an} wrote `{}` under WithUnit<_, {bn}>", w.name()), &calls, None);
-        let calls = record(&Distribution::<Liar<A>>::from_iter([Liar::new(w)]).with_unit::<B>());
+        let calls = emit(Op::LiarDistribution, &[], w);
         expect_error(st, format!("unit-mismatch-in-distribution-not-rejected:{an}->{bn}"), format!("Distribution of a value promising {an} that wrote `{}`, under WithUnit<_, {bn}>", w.name()), &calls, None);
         st.validation_cases += 1;
         st.tick("validation", 1);
-        if Mean::<A>::try_new([&Liar::<A>::new(w)]).is_ok() {
+        let calls = emit(Op::LiarMean, &[], w);
+        if !matches!(&calls[..], [Call::Str(s)] if s.starts_with("<Mean::try_new failed")) {
             st.v.add(format!("unit-mismatch-in-mean-not-rejected:{an}"), format!("Mean::<{an}>::try_new accepted a value that wrote `{}`", w.name()), json!({"promised": an, "wrote": w.name()}));
         }
     }
     // an error of the wrapped value stays an error
-    let calls = record(&ErrVal::<A>(PhantomData).with_unit::<B>());
+    let calls = emit(Op::InnerError, &[], none);
     expect_error(st, "inner-error-lost".into(), format!("WithUnit<value reporting its own error, {bn}> from {an}"), &calls, Some("own-error"));
-
 }
 
 // ------------------------------------------------------------------------------------------
@@ -761,7 +821,7 @@ fn written<E: Entry>(entry: &E) -> EW {
 
 /// `build` closes and roots one `#[metrics]` struct whose five fields all carry
 /// `#[metrics(unit = <to>)]` over values promising `<from>`.
-fn attr_run(st: &mut St, an: &'static str, bn: &'static str, build: impl Fn(Observation, Unit) -> EW) {
+fn attr_run(st: &mut St, an: &'static str, bn: &'static str, build: &dyn Fn(Observation, Unit) -> EW) {
     let (from, to) = (info(an), info(bn));
     let (from, to) = (&from, &to);
     let ratio = ref_ratio(from, to);
@@ -798,7 +858,7 @@ macro_rules! attr_cross {
             #[metrics(unit = u::$b)]
             liar: Liar<u::$a>,
         }
-        attr_run($st, stringify!($a), stringify!($b), |x, wrong| {
+        attr_run($st, stringify!($a), stringify!($b), &|x, wrong| {
             let m = P { plain: Tagged::new(x), some: Some(Tagged::new(x)), none: None, text: StrMetric(PhantomData), liar: Liar::new(wrong) };
             written(&RootEntry::new(m.close()))
         });
@@ -883,23 +943,34 @@ fn attr_concrete(st: &mut St) {
 // Inverse conversions
 // ------------------------------------------------------------------------------------------
 
+fn there_and_back<A, B>(x: Observation) -> Vec<Call>
+where
+    A: Convert<B> + 'static,
+    B: Convert<A> + 'static,
+{
+    record(&Tagged::<A>::new(x).with_unit::<B>().with_unit::<A>())
+}
+
 fn inverse<A, B>(st: &mut St, an: &'static str, bn: &'static str)
 where
     A: Convert<B> + 'static,
     B: Convert<A> + 'static,
 {
+    inverse_run(st, an, bn, <A as Convert<B>>::RATIO, <B as Convert<A>>::RATIO, there_and_back::<A, B>);
+}
+
+fn inverse_run(st: &mut St, an: &'static str, bn: &'static str, r1: f64, r2: f64, back: fn(Observation) -> Vec<Call>) {
     let (from, to) = (info(an), info(bn));
     let key = if an <= bn { format!("roundtrip:{an}<->{bn}") } else { format!("roundtrip:{bn}<->{an}") };
     st.inverse_pairs += 1;
     st.tick("ratio-inverse", 1);
-    let (r1, r2) = (<A as Convert<B>>::RATIO, <B as Convert<A>>::RATIO);
     if !((r1 * r2 - 1.0).abs() <= 2.0 * EPS) {
         st.v.add(key.clone(), format!("RATIO({an}->{bn}) * RATIO({bn}->{an}) = {:e} * {:e} = {:e}, not 1 within 2 ulp", r1, r2, r1 * r2), json!({"a": an, "b": bn, "ab": format!("{r1:e}"), "ba": format!("{r2:e}")}));
     }
     let forward = ref_ratio(&from, &to);
     let r_ref = forward.0 as f64 / forward.1 as f64;
     for x in st.alphabet.clone() {
-        let calls = record(&Tagged::<A>::new(x).with_unit::<B>().with_unit::<A>());
+        let calls = back(x);
         // an intermediate beyond f64 cannot come back
         let (val, _) = num_parts(&x);
         if forward != (1, 1) && !(val * r_ref).is_finite() {
@@ -1138,14 +1209,18 @@ fn durations(tier: Tier) -> Vec<Duration> {
 /// the `#[metrics(unit = ..)]` attribute for every pair: one real macro expansion per pair
 fn attribute_pairs(st: &mut St) {
     attr_cross!(st; [Second Millisecond Microsecond] x [Second Millisecond Microsecond]);
-    attr_cross!(st;
-        [Byte Kilobyte Megabyte Gigabyte Terabyte Bit Kilobit Megabit Gigabit Terabit
-         BytePerSecond KilobytePerSecond MegabytePerSecond GigabytePerSecond TerabytePerSecond
-         BitPerSecond KilobitPerSecond MegabitPerSecond GigabitPerSecond TerabitPerSecond]
-        x
+    // a representative part of the 400 bit/byte pairs (each expansion of the real macro costs
+    // about a second of compile time): two full rows and two full columns of the matrix, which
+    // puts every one of the 20 tags in the source and in the target position at least twice
+    attr_cross!(st; [Terabit KilobytePerSecond] x
         [Byte Kilobyte Megabyte Gigabyte Terabyte Bit Kilobit Megabit Gigabit Terabit
          BytePerSecond KilobytePerSecond MegabytePerSecond GigabytePerSecond TerabytePerSecond
          BitPerSecond KilobitPerSecond MegabitPerSecond GigabitPerSecond TerabitPerSecond]);
+    attr_cross!(st;
+        [Byte Kilobyte Megabyte Gigabyte Terabyte Bit Kilobit Megabit Gigabit
+         BytePerSecond MegabytePerSecond GigabytePerSecond TerabytePerSecond
+         BitPerSecond KilobitPerSecond MegabitPerSecond GigabitPerSecond TerabitPerSecond]
+        x [Kilobyte MegabitPerSecond]);
     attr_cross!(st; [None] x
         [None Count Percent Second Millisecond Microsecond
          Byte Kilobyte Megabyte Gigabyte Terabyte Bit Kilobit Megabit Gigabit Terabit
